@@ -40,6 +40,11 @@ func (n *MixedValueNode) AddConstraint(c constraint.Constraint) {
 	switch t := c.(type) {
 	case *constraint.TypeConstraint:
 		n.addTypeConstraint(t)
+		if len(n.types) != 0 && t.Bytes().Unquote().String() == "mixed" {
+			// A written `type: "mixed"` next to a type shortcut says what the
+			// library would have generated itself: the shortcut's names stay.
+			break
+		}
 		n.types = []string{t.Bytes().String()}
 
 	case *constraint.Or:
